@@ -84,6 +84,22 @@ func checkRawRoundTripObj(f ref.Frame, drw *dialect.ReadWriter, staleSig bool) e
 	if !gen.SameFrame(f, g) {
 		return fmt.Errorf("frame read back differs:\n got  %s\n want %s", gen.Describe(g), gen.Describe(f))
 	}
+	// the accessor methods of the frame interface say what the fields say
+	fr := res[0].fr
+	if fr.GetSystemID() != f.Sys || fr.GetComponentID() != f.Comp || fr.GetSequenceNumber() != f.Seq || fr.GetChecksum() != f.Checksum {
+		return fmt.Errorf("accessors of the frame read back: system %d component %d sequence %d checksum %#04x, the frame has %d/%d/%d/%#04x", fr.GetSystemID(), fr.GetComponentID(), fr.GetSequenceNumber(), fr.GetChecksum(), f.Sys, f.Comp, f.Seq, f.Checksum)
+	}
+	if raw := rawOf(fr); raw == nil || raw.ID != f.ID || !bytes.Equal(raw.Payload, f.Payload) {
+		return fmt.Errorf("GetMessage() of the frame read back is not the raw message (id %d, payload %x)", f.ID, f.Payload)
+	}
+	for _, extra := range []byte{0, f.Seq, 0xFF} {
+		if got, want := fr.GenerateChecksum(extra), f.ChecksumFor(extra); got != want {
+			return fmt.Errorf("GenerateChecksum(%d) = %#04x, X.25 over the frame with that CRC_EXTRA is %#04x", extra, got, want)
+		}
+	}
+	if v2, ok := fr.(*frame.V2Frame); ok && v2.IsSigned() != f.Signed() {
+		return fmt.Errorf("IsSigned() = %v, the signed flag is %v", v2.IsSigned(), f.Signed())
+	}
 	return nil
 }
 
